@@ -222,7 +222,7 @@ func (a *actor) run() {
 		for _, spec := range specs {
 			e := mkEntry(spec)
 			f, src := in.log.addLeafToPool(in.ctx, e, false)
-			x.w.mon.admitted(spec, e, src)
+			x.w.mon.admittedIn(spec, e, src, !in.crashed.Load())
 			ps = append(ps, pend{spec, e, f, src})
 		}
 		// Before each round the driver yields: by default the submitters run first.
@@ -294,7 +294,7 @@ func (x *exec) submitter(id int, specs []string) {
 		spec = strings.TrimPrefix(spec, "~")
 		e := mkEntry(spec)
 		f, src := in.log.addLeafToPool(in.ctx, e, low)
-		x.w.mon.admitted(spec, e, src)
+		x.w.mon.admittedIn(spec, e, src, !in.crashed.Load())
 		x.s.Observe("src=" + src)
 		x.collect(in, spec, e, f, src)
 	}
